@@ -1031,7 +1031,7 @@ func listCases(a *Args, w *CaseWriter, rng *Rng, id *int64, thorough bool) {
 		entT, kinds := readEntries(root)
 		got, err, blocked := listWithDeadline(ctx, mgr, root)
 		if blocked {
-			w.ImplViolation(my, "List did not return within 5 s (it opened a FIFO entry of the plugin root)", &c16Case{Op: "list", Root: "/tmp/vh-c16l/root", Entries: kinds}, "")
+			w.ImplViolation(my, "List did not return within 1.5 s (it opened a FIFO entry of the plugin root)", &c16Case{Op: "list", Root: "/tmp/vh-c16l/root", Entries: kinds}, "")
 		}
 		_, kinds2 := readEntries(root)
 		c := &c16Case{Op: "list", Root: "/tmp/vh-c16l/root", Entries: kinds, Err: classify(err), Strs: got}
@@ -1053,7 +1053,7 @@ func listCases(a *Args, w *CaseWriter, rng *Rng, id *int64, thorough bool) {
 	}
 }
 
-// listWithDeadline runs List with a 5 s watchdog; when it blocks (on a FIFO
+// listWithDeadline runs List with a 1.5 s watchdog; when it blocks (on a FIFO
 // of the root) the FIFOs are released by opening them for writing.
 func listWithDeadline(ctx context.Context, mgr *plugin.CLIManager, root string) ([]string, error, bool) {
 	type res struct {
@@ -1068,7 +1068,7 @@ func listWithDeadline(ctx context.Context, mgr *plugin.CLIManager, root string) 
 	select {
 	case r := <-ch:
 		return r.got, r.err, false
-	case <-time.After(5 * time.Second):
+	case <-time.After(1500 * time.Millisecond):
 	}
 	for tries := 0; tries < 50; tries++ {
 		des, _ := os.ReadDir(root)
